@@ -187,6 +187,76 @@ Definition form_unmarshal_gen (fixed : bool) (data : bytes) (d : fdst) : outcome
 Definition form_unmarshal := form_unmarshal_gen true.
 Definition form_unmarshal_prefix := form_unmarshal_gen false.
 
+(* ---- the destination's content after a FAILED decode ----
+   mapFormToStruct writes field by field and returns at the first error: fields before the
+   failing one keep their new content, array elements before the failing one too, a slice is
+   assigned only when complete, a scalar only when it parsed.  The [_st] functions return the
+   content afterwards together with the status; they agree with the functions above on the
+   status and, on success, on the content (Proofs/FormCodecProofs.v: map_fields_st_agrees). *)
+Fixpoint set_array_st (over : outcome (list leaf)) (elems : list leaf) (vals : list bytes)
+  : list leaf * outcome unit :=
+  match vals with
+  | [] => (elems, Ok tt)
+  | s :: sr =>
+      match elems with
+      | [] => ([], omap (fun _ => tt) over)
+      | e :: er =>
+          match set_with_proper_type e s with
+          | Ok e' => let (r, st) := set_array_st over er sr in (e' :: r, st)
+          | Err => (elems, Err)
+          | Panic => (elems, Panic)
+          end
+      end
+  end.
+
+Definition set_field_st (over : outcome (list leaf)) (v : fval) (vals : list bytes)
+  : fval * outcome unit :=
+  match v with
+  | FArray proto elems =>
+      match vals with
+      | [] => (v, Panic)
+      | _ => let (es, st) := set_array_st over elems vals in (FArray proto es, st)
+      end
+  | _ =>
+      match set_field_gen over v vals with
+      | Ok v' => (v', Ok tt)
+      | Err => (v, Err)
+      | Panic => (v, Panic)
+      end
+  end.
+
+Fixpoint map_fields_st (over : outcome (list leaf)) (form : values) (fs : fields)
+  : fields * outcome unit :=
+  match fs with
+  | FNil => (FNil, Ok tt)
+  | FCons name tag exported v rest =>
+      let continue := fun v' =>
+        let (r, st) := map_fields_st over form rest in (FCons name tag exported v' r, st) in
+      let after := fun (p : fval * outcome unit) =>
+        match snd p with
+        | Ok _ => continue (fst p)
+        | st => (FCons name tag exported (fst p) rest, st)
+        end in
+      if negb exported then continue v
+      else
+        match tag, v with
+        | [], FStruct sub =>
+            let (sub', st) := map_fields_st over form sub in after (FStruct sub', st)
+        | _, _ =>
+            match vget form (eff_name name tag) with
+            | None => continue v
+            | Some vals => after (set_field_st over v vals)
+            end
+        end
+  end.
+
+(* FormCodec.Unmarshal into a struct: content afterwards and status *)
+Definition form_unmarshal_struct_st (data : bytes) (fs : fields) : fields * outcome unit :=
+  match parse_query data with
+  | None => (fs, Err)
+  | Some form => map_fields_st (Ok []) form fs
+  end.
+
 (* ---- vocabulary of the round-trip statement ---- *)
 Fixpoint zero_fields (fs : fields) : fields :=
   match fs with
